@@ -454,5 +454,6 @@ func runC19Bounds(c *Ctx) {
 		// make([]byte, End-Start): length is End-Start >= 0 — no index obligation arises from it
 	}
 	reportBounds(c, "C19-BOUNDS", fns, axioms)
+	runFreshFileSet(c, "C19-BOUNDS") // premise of the area-offset axiom
 	c.Extra["every_tag_token_contains_colon"] = colonOK
 }
